@@ -65,6 +65,7 @@ def main(tier, replay=None):
     camp.run([], [excgen.execution(p) for p in rnd], "random/dynamic")
     # many blocks open at the same time (the runtime keeps 2048 jump buffers)
     deep = [excgen.deep_prog(rng, d) for d in ((26, 40, 100, 300, 1000, 2000) if quick else (26, 27, 40, 64, 100, 129, 300, 513, 1000, 1500, 2000, 2040)) for _ in range(2 if quick else 6)]
+    deep += [excgen.deep_prog(rng, d, wrap=False) for d in (2046, 2047, 2048, 2048)]       # up to exactly the 2048 blocks the runtime supports
     camp.run([], [excgen.execution(p) for p in deep], "deep/dynamic", sample=False)
     camp.run([], [["reset", "pairs"]], "kinds", sample=False)      # every (filter, thrown) pair of the 16 built-in kinds and 2 user kinds
 
